@@ -96,7 +96,7 @@ def run(ctx):
                     'observed': {k: r.get(k) for k in ('cause', 'ops', 'fault', 'last_ops', 'storage')}})
     ec.compare_with_machine(ctx, 'c07', cases, results, what='storage layout / engine independence')
     ncases = [(c, r) for c, r in zip(cases, results) if c['engine'] == 'native']
-    ncases = ncases[:ctx.n(900, 30000)]
+    ncases = ncases[:ctx.n(900, 8000)]
     nativecamp.compare_native(ctx, [c for c, _ in ncases], [r for _, r in ncases], name='c07native')
     ctx.coverage['rule'] = ('generated images with sparse geometry (segments around 2^14k page edges, the flat-window limit, '
                             '2^20..2^57, words equal to the w=64 fill constant) x input x {fast, native with random '
